@@ -73,7 +73,9 @@ def run(ctx):
                 "shape": rng.choice(["chain", "chain2", "assoc", "assoc"]),
                 "fkpolicy": rng.choice(["on_remove_event", "on_every_event", "on_remove_event", "disabled"])}
     directed = directed_cases()
-    cases = directed + cliprops.gen_cases(ctx, n, copts, {"p_fail": 0.55, "p_partial": 0.1, "clock": False}, tweak=tweak)
+    # (the clock jumps by hours and days in a third of the histories: with a retention the purge
+    #  passes then remove trashed children and parents for good)
+    cases = directed + cliprops.gen_cases(ctx, n, copts, lambda rng: {"p_fail": 0.55, "p_partial": 0.1, "clock": rng.random() < 0.34}, tweak=tweak)
     res, failing = cliprops.run_and_eval(ctx, cases, "c09_case", "c09")
     violations, corr = [], []
     control_breaks = 0
